@@ -164,6 +164,25 @@ VDecodeOpts(ev) ==
                        \o T(OkOut(onlyUnu) # ~(FlagT(w) /\ (FlagP(w) \/ FlagO(w))), "unused-exact")))
      \o IoTags(ev)
 
+\* C14: single header bits toggled, every check switched off.  variants[1] is the input itself
+\* (bit = -1), variants[b + 2] the input with bit b of the flag word toggled.  Bits that only a check
+\* looks at -- the version nibble, the reserved bits, and on a control message P and O -- must not change
+\* the result; every variant is also compared with the specification.
+IgnorableBits(w) ==
+  {0, 1, 2, 3, 10, 11, 13} \cup {4, 5, 6, 7} \cup (IF FlagT(w) THEN {14, 15} ELSE {})
+
+VDecodeBits(ev) ==
+  IF ev.variants = << >> THEN << >>
+  ELSE
+  LET vs == ev.variants
+      w == U16At(ev.in, 0)
+      Toggled(b) == Be16(IF Bit(w, b) THEN w - 2 ^ b ELSE w + 2 ^ b) \o Drop(ev.in, 2)
+      NoChecks == [res |-> FALSE, ver |-> FALSE, unu |-> FALSE]
+      One(r) == MsgOutcomeTags(DecodeMessage(IF r.bit < 0 THEN ev.in ELSE Toggled(r.bit), NoChecks), r.out, r.rem)
+  IN ConcatTags(One, vs, 1)
+     \o T(\E b \in IgnorableBits(w) : Finished(vs[1].out) /\ Finished(vs[b + 2].out) /\ ~SameOut(vs[1], vs[b + 2]), "bits-affect-result")
+     \o IoTags(ev)
+
 \* C08: octets after the declared end never change the result
 VDecodeSuffix(ev) ==
   LET opts == OptsOf(ev)
